@@ -77,6 +77,14 @@ func SetBudget(n int64) { rt.Steps, rt.Budget = 0, n }
 // StepCount is the number of statements executed since the last SetBudget.
 func StepCount() int64 { return rt.Steps }
 
+// VirtualTime switches the skipping of waits (time.Sleep ... of the instrumented packages) on or off.
+func VirtualTime(on bool) { rt.VirtualTime.Store(on) }
+
+// Waited is the total waiting the instrumented code asked for since ResetWaited.
+func Waited() time.Duration { return rt.Waited() }
+
+func ResetWaited() { rt.ResetWaited() }
+
 // Cover switches coverage counting on (n = number of points) or off (0).
 func Cover(n int) {
 	if n == 0 {
